@@ -94,6 +94,7 @@ type Oracle struct {
 	leaderObs   []leaderObsRec
 	snapSends   map[string]*snapSendRec
 	backoff     map[string]*backoffRec
+	suffixTrunc []truncRec // per node: the last suffix truncation
 	restoresOK  []restoreOK
 	installing  []int // per node: InstallSnapshot RPCs being handled
 	userRestoring []int
@@ -121,6 +122,11 @@ type leaderObsRec struct {
 	endSeq    int64
 }
 
+type truncRec struct {
+	seq int64
+	n   uint64
+}
+
 type backoffRec struct {
 	low    uint64 // lowest previous-entry index rejected so far in this walk
 	set    bool
@@ -136,7 +142,7 @@ type snapSendRec struct {
 func newOracle(w *World, n int) *Oracle {
 	return &Oracle{w: w, entries: map[idxTerm]*EntryRec{}, termFirst: map[uint64]uint64{}, ghost: map[uint64]*Ghost{},
 		leaders: map[uint64]leaderRec{}, senders: map[uint64]int{}, votes: map[idxTerm]string{}, canon: map[uint64]FSMState{},
-		maxTermSeen: make([]uint64, n), snapSends: map[string]*snapSendRec{}, backoff: map[string]*backoffRec{}, installing: make([]int, n), userRestoring: make([]int, n),
+		maxTermSeen: make([]uint64, n), snapSends: map[string]*snapSendRec{}, backoff: map[string]*backoffRec{}, suffixTrunc: make([]truncRec, n), installing: make([]int, n), userRestoring: make([]int, n),
 		lease: newLeaseState(n), iso: newIsoState(n), conv: &convState{}, maxRespTerm: make([]uint64, n),
 		pendingVoteTerm: make([]pendingVote, n), durableVote: map[idxTerm]int64{}}
 }
@@ -377,12 +383,20 @@ func (o *Oracle) beforeDeleteRange(inc *Inc, min, max uint64) {
 		// a snapshot install resets the log wholesale only on a store that cannot hold gaps; on a
 		// gap-tolerant store it compacts like after a local snapshot
 		installingReset := o.installing[inc.node.idx] > 0 && w.cfg.StoreFlavour != FlavourPlain
+		// the snapshot goroutine reads the last log index and then deletes; a suffix truncation by the
+		// main loop in between makes the head it used larger than the one seen here by the number of
+		// entries truncated meanwhile
+		if tr := o.suffixTrunc[inc.node.idx]; tr.n > 0 && w.sim.Seq()-tr.seq < 300 {
+			head += tr.n
+			w.stats.probe("compaction_raced_with_suffix_truncation")
+		}
 		if head >= w.cfg.TrailingLogs && hi > head-w.cfg.TrailingLogs && !installingReset && o.userRestoring[inc.node.idx] == 0 {
 			w.violate("C11", "C11/trailing-logs-not-kept", "%s compaction [%d,%d] with log [%d,%d] and TrailingLogs=%d removes one of the last %d entries (%d in log)",
 				inc.tag, lo, hi, d.first, d.last, w.cfg.TrailingLogs, w.cfg.TrailingLogs, count)
 		}
 	case suffix || whole:
 		w.stats.probe("suffix_truncation")
+		o.suffixTrunc[inc.node.idx] = truncRec{seq: w.sim.Seq(), n: hi - lo + 1}
 		// C04: a follower deletes existing entries only from the first index where its entry's term
 		// differs from the one sent: some AppendEntries that was handed to this incarnation and is
 		// not answered yet carries an entry for index lo with another term than the stored one
